@@ -624,3 +624,37 @@ M("C15", "pool-host-keeps-brackets", "connectionpool.py",
   "        self.host = _normalize_host(host, scheme=self.scheme)", "        self.host = normalize_host(host, scheme=self.scheme)", rule="C15-R5")
 M("C15", "key-host-case-sensitive", "poolmanager.py",
   "    context[\"host\"] = context[\"host\"].lower()\n", "", rule="C15-R6")
+
+# --------------------------------------------------------------------------- C19
+M("C19", "get-timeout-returns-pool-object", "connectionpool.py",
+  "        if timeout is _DEFAULT_TIMEOUT:\n            return self.timeout.clone()", "        if timeout is _DEFAULT_TIMEOUT:\n            return self.timeout", rule="C19-R1")
+M("C19", "clone-copies-start-stamp", "util/timeout.py",
+  "        return Timeout(connect=self._connect, read=self._read, total=self.total)", "        t = Timeout(connect=self._connect, read=self._read, total=self.total)\n        t._start_connect = self._start_connect\n        return t", rule="C19-R1")
+M("C19", "bool-accepted-as-timeout", "util/timeout.py",
+  "        if isinstance(value, bool):\n            raise ValueError(\n                \"Timeout cannot be a boolean value. It must \"\n                \"be an int, float or None.\"\n            )\n", "", rule="C19-R2")
+M("C19", "zero-timeout-accepted", "util/timeout.py",
+  "            if value <= 0:", "            if value < 0:", rule="C19-R2")
+M("C19", "total-stored-unvalidated", "util/timeout.py",
+  "        self.total = self._validate_timeout(total, \"total\")", "        self.total = total", rule="C19-R2")
+M("C19", "connect-timeout-ignores-total", "util/timeout.py",
+  "        return min(self._connect, self.total)  # type: ignore[type-var]", "        return self._connect", rule="C19-R3")
+M("C19", "read-timeout-not-clamped-at-zero", "util/timeout.py",
+  "            return max(0, min(self.total - self.get_connect_duration(), self._read))", "            return min(self.total - self.get_connect_duration(), self._read)", rule="C19-R3")
+M("C19", "read-timeout-ignores-elapsed", "util/timeout.py",
+  "            return max(0, self.total - self.get_connect_duration())", "            return max(0, self.total)", rule="C19-R3")
+M("C19", "read-timeout-computed-before-request", "connectionpool.py",
+  "        try:\n            conn.request(\n                method,\n                url,\n                body=body,",
+  "        read_timeout = timeout_obj.read_timeout\n        try:\n            conn.request(\n                method,\n                url,\n                body=body,", rule=None, benign=True)
+M("C19", "read-timeout-only-computed-before-request", "connectionpool.py",
+  "        # Reset the timeout for the recv() on the socket\n        read_timeout = timeout_obj.read_timeout\n", "", rule="C19-R4")
+M("C19", "zero-read-budget-waits", "connectionpool.py",
+  "            if read_timeout == 0:\n                raise ReadTimeoutError(\n                    self, url, f\"Read timed out. (read timeout={read_timeout})\"\n                )\n", "", rule="C19-R4")
+M("C19", "clock-started-after-validate", "connectionpool.py",
+  "        timeout_obj.start_connect()\n        conn.timeout = Timeout.resolve_default_timeout(timeout_obj.connect_timeout)\n\n        try:\n            # Trigger any extra validation we need to do.\n            try:\n                self._validate_conn(conn)",
+  "        conn.timeout = Timeout.resolve_default_timeout(timeout_obj.connect_timeout)\n\n        try:\n            # Trigger any extra validation we need to do.\n            try:\n                self._validate_conn(conn)\n                timeout_obj.start_connect()", rule="C19-R4")
+M("C19", "getresponse-without-settimeout", "connection.py",
+  "        # we need to set the timeout on the socket.\n        self.sock.settimeout(self.timeout)\n", "", rule="C19-R5")
+M("C19", "request-timeout-min-with-pool", "connectionpool.py",
+  "        if isinstance(timeout, Timeout):\n            return timeout.clone()", "        if isinstance(timeout, Timeout):\n            return timeout.clone() if timeout.total else self.timeout.clone()", rule="C19-R6")
+M("C19", "eagain-not-mapped", "connectionpool.py",
+  "        if hasattr(err, \"errno\") and err.errno in _blocking_errnos:\n            raise ReadTimeoutError(", "        if hasattr(err, \"errno\") and err.errno in _blocking_errnos and url:\n            raise ReadTimeoutError(", rule="C19-R7")
